@@ -495,3 +495,67 @@ def rebinding_by_name(ctx: Ctx):
                 if not same else f"{va} / {kwa} are also used directly, besides the by-name view: those values are taken in call order"),
                lhs=show(L)[:120], rhs=show(next(iter(names)))[:120] if names else "")
     ctx.floor("signature_sites", 6)  # 11 on the reviewed tree; refactorings legitimately turn some into plain functions
+
+
+DISPATCHERS = ("lcm.dispatchers.productmap", "lcm.dispatchers.vmap_1d", "lcm.dispatchers.spacemap", "lcm.dispatchers._base_productmap",
+               "jax.vmap")
+
+
+@rule("R10.SCALAR")
+def user_dags_called_through_dispatchers(ctx: Ctx):
+    """Model functions are written for scalars.  A function that lcm assembles from them with dags
+    (`concatenate_functions`) is therefore never called directly by the function that assembled it: it is handed to a
+    dispatcher (productmap / vmap_1d / spacemap), which evaluates it point by point, or returned / passed on.  Expected
+    count of direct calls: zero (positive control in the fixture).  A direct call with grids or a mesh of grids as
+    arguments is refuted: a filter or utility that reduces over its inputs, branches on them or indexes with them gives
+    one answer for the whole grid."""
+    from lcmsa.match import all_frames, frame_terms, loop_terms
+    from lcmsa.rules_eff import ensure_fixture
+
+    prog = ctx.prog
+    ensure_fixture(prog)
+
+    def direct_calls(frames):
+        out = []
+        for name, fr in sorted(frames.items()):
+            seen = set()
+            for t in frame_terms(fr) + loop_terms(prog, fr):
+                for s_ in walk(t):
+                    if s_[0] != "call" or s_ in seen or not is_term(s_[1]):
+                        continue
+                    seen.add(s_)
+                    arms = [s_[1]]
+                    while any(is_term(a) and a[0] in ("phi", "ifexp") for a in arms):
+                        arms = [b for a in arms for b in ((a[2], a[3]) if is_term(a) and a[0] in ("phi", "ifexp") else (a,))]
+                    for a in arms:
+                        f = prog.strip_wrappers(a) if is_term(a) else None
+                        if is_term(f) and f[0] == "call" and callee_name(f) == "dags.concatenate_functions":
+                            out.append((name.split("@")[0], s_, f))
+                            break
+        return out
+
+    frames = {n: f for n, f in all_frames(prog, include_extra=True).items() if not n.startswith("lcmref")}
+    own = direct_calls({n: f for n, f in frames.items() if not n.startswith("lcmfix")})
+    ctl = direct_calls({n: f for n, f in frames.items() if n.startswith("lcmfix")})
+    if not ctl:
+        ctx.undecided("SCALAR:positive-control", "the scan no longer flags the fixture's direct call of a concatenated function")
+    ctx.count("positive_controls_flagged", len(ctl))
+    n_wrapped = sum(1 for fr in frames.values() for t in frame_terms(fr) for s_ in walk(t)
+                    if s_[0] == "call" and callee_name(s_) in DISPATCHERS and any(callee_name(x) == "dags.concatenate_functions" for x in walk(s_)))
+    ctx.count("dispatched_dags", n_wrapped)
+    done = set()
+    for q, call, _f in own:
+        if q in done:
+            continue
+        done.add(q)
+        arrayish = any(callee_name(x) in ("jax.numpy.meshgrid", "numpy.meshgrid") or (x[0] == "attr" and x[2] == "grids")
+                       or (x[0] == "call" and is_term(x[1]) and x[1][0] == "attr" and x[1][2] == "to_jax")
+                       for a in list(call[2]) + [v for _k, v in call[3]] for x in walk(a))
+        ctx.ob(f"SCALAR:{q.removeprefix('lcm.')}", False if arrayish else None, prog.where(call),
+               f"{q} calls the function it assembled from the model functions directly on grids / a mesh of grids instead of handing it "
+               "to productmap / vmap_1d / spacemap: model functions are written for scalars" if arrayish else
+               f"{q} calls a concatenated model function directly; its arguments are not recognised as grids", lhs=show(call)[:200])
+    if not own:
+        ctx.ob("SCALAR:no-direct-call-of-a-model-dag", True, "",
+               f"no function calls a dags-assembled model function directly; {n_wrapped} are handed to a dispatcher")
+    ctx.floor("dispatched_dags", 3)
